@@ -50,7 +50,8 @@ def image(draw, tier, mega=False):
 @st.composite
 def _param_types(draw):
     t = draw(gen.scalar_types())
-    return {"ext_type": t, "os_type": t if draw(st.booleans()) else draw(gen.scalar_types())}
+    return {"ext_type": t, "os_type": t if draw(st.booleans()) else draw(gen.scalar_types()),
+            "angle_type": draw(gen.scalar_types())}
 
 
 @st.composite
@@ -95,7 +96,7 @@ def _eight_bit_overflow(case):
     return int(e) * int(o) > min(np.iinfo(type(e)).max, np.iinfo(type(o)).max)
 
 
-def call(case, img):
+def call(case, img, typed_angle=True):
     fn = case["fn"]
     os_ = gen.typed_scalar(case["oversample"], case.get("os_type"))
     ext = gen.typed_scalar(case["extent"], case.get("ext_type"))
@@ -105,10 +106,13 @@ def call(case, img):
         if case["phys"]:
             return lentil.jitter(img, scale=ext * case["pixelscale"], pixelscale=case["pixelscale"], oversample=os_)
         return lentil.jitter(img, scale=ext, oversample=os_)
+    # the angle as a Python number or as an equal numpy scalar (when exactly representable); the call in physical
+    # units always passes the plain number, so that a typed call is followed by an untyped one with equal arguments
+    ang = case["angle"] if case["phys"] or typed_angle is False else gen.typed_scalar(case["angle"], case.get("angle_type"))
     if case["phys"]:
-        return lentil.smear(img, distance=ext * case["pixelscale"], angle=case["angle"], pixelscale=case["pixelscale"],
+        return lentil.smear(img, distance=ext * case["pixelscale"], angle=ang, pixelscale=case["pixelscale"],
                             oversample=os_)
-    return lentil.smear(img, distance=ext, angle=case["angle"], oversample=os_)
+    return lentil.smear(img, distance=ext, angle=ang, oversample=os_)
 
 
 def transfer(case, shape):
@@ -141,6 +145,7 @@ def blur(case, ctx):
             f"os:{case['oversample']}", "1xN" if 1 in shape else None,
             "ext_type:" + type(gen.typed_scalar(case["extent"], case.get("ext_type"))).__name__,
             "os_type:" + type(gen.typed_scalar(case["oversample"], case.get("os_type"))).__name__,
+            ("angle_type:" + type(gen.typed_scalar(case["angle"], case.get("angle_type"))).__name__) if fn == "smear" else None,
             "8bit_product_out_of_range" if fn != "pixel" and _eight_bit_overflow(case) else None)
     ctx.nontrivial_if(case["kind"] != "const" and ext > 0)
     img0 = img.copy()
